@@ -177,7 +177,10 @@ def loopsStep (ns : LNodes) (toks : List String) : Option (LNodes × String) :=
       let n ← get i
       let (e, spiToks) : Loops.LEvent × List String ← (match ev, rest with
         | "lmsg", "-" :: sp => pure (.msg none, sp)
-        | "lmsg", m :: sp => do pure (.msg (some (← tMsg (← parseTok m))), sp)
+        | "lmsg", m :: sp =>
+          -- "NC:<msg>": signed content that reads as <msg> but is not in canonical encoding: dropped at the gate
+          if m.startsWith "NC:" then pure (.msg none, sp)
+          else do pure (.msg (some (← tMsg (← parseTok m))), sp)
         | "ltrigger", h :: v :: sp => do pure (.trigger (← natOf h) (← natOf v), sp)
         | "lsync", "-" :: sp => pure (.sync none, sp)
         | "lsync", h :: sp => do pure (.sync (some (← natOf h)), sp)
@@ -202,6 +205,10 @@ def nodeStep (ns : Nodes) (toks : List String) : Option (Nodes × String) :=
       let n : Worker.WNode := { me := ← idOfTok me, inst := ← natOf inst }
       pure (setNode ns i n, "init")
   | [i, "garbage"] => do     -- unreadable content: both loops drop it before anything else happens
+      let i ← natOf i
+      let n ← getNode ns i
+      pure (ns, pNode n [])
+  | i :: "deliver-nc" :: _ => do     -- readable content whose signed part is not in canonical encoding: dropped the same way
       let i ← natOf i
       let n ← getNode ns i
       pure (ns, pNode n [])
